@@ -128,7 +128,27 @@ def _rest(ctx, pw, selfp):
         e1 = ("call", "std::vec::Vec::is_empty", (cents,))
         e2 = ("call", "std::vec::Vec::is_empty", (("field", selfp, "backlog"),))
         alts = set(map(repr, r[1])) if r[0] == "phi" else {repr(r)}
-        ctx.check(alts == {repr(const(False)), repr(e2)} or r == mk("BitAnd", e1, e2), "R16-reads", ie.key, ie, "is_empty == centroids.is_empty() && backlog.is_empty()", "is_empty is %s" % fmt(r))
+        oke = alts == {repr(const(False)), repr(e2)} or r == mk("BitAnd", e1, e2)
+        if not oke:
+            # decision table over the returning paths: true exactly when both vectors are established empty
+            pe_ = PathEnumerator(ie, prog, ctx.summ)
+            rows = []
+            for p in pe_.paths():
+                if p.exit_kind != "return":
+                    continue
+                fd = {repr(c): t for c, t in pe_.path_facts(p)}
+                def empty(v):
+                    a = fv(fd, ("call", "std::vec::Vec::is_empty", (v,)))
+                    return a if a is not None else fv(fd, mk("Eq", const(0), ("call", "std::vec::Vec::len", (v,))))
+                ec, eb = empty(cents), empty(("field", selfp, "backlog"))
+                if p.ret == "true":
+                    rows.append(ec is True and eb is True)
+                elif p.ret == "false":
+                    rows.append(ec is False or eb is False)
+                else:
+                    rows.append(False)
+            oke = len(rows) >= 2 and all(rows)
+        ctx.check(oke, "R16-reads", ie.key, ie, "is_empty == centroids.is_empty() && backlog.is_empty()", "is_empty is %s" % fmt(r))
     inner = ("field", selfp, "inner")
     for nm in ("min", "max"):
         f = ctx.anchor(TD + "::" + nm)
@@ -143,7 +163,17 @@ def _rest(ctx, pw, selfp):
         f = ctx.anchor(TD + "::" + nm)
         if f is not None:
             r = TermBuilder(f, prog).return_term()
-            ctx.check(r == ("call", TI + "::" + nm, (inner,)), "R16-reads", f.key, f, "%s() forwards to the merged inner digest" % nm, "%s() is %s" % (nm, fmt(r)))
+            fi_ = prog.fn(TI + "::" + nm)
+            same_expr = False
+            if fi_ is not None:       # the inner method's own expression, written out (closures compared by what they compute)
+                from ..terms import apply_closure
+                want_ = TermBuilder(fi_, prog, {1: inner}, 1).return_term()
+                def canon(t_):
+                    if t_[0] == "call" and len(t_[2]) == 1 and t_[2][0][0] == "map":
+                        return (t_[1].split("::")[-1], t_[2][0][1], apply_closure(t_[2][0][2], (("elem", ("dummy",)),)))
+                    return t_
+                same_expr = canon(r) == canon(want_)
+            ctx.check(r == ("call", TI + "::" + nm, (inner,)) or same_expr, "R16-reads", f.key, f, "%s() forwards to the merged inner digest" % nm, "%s() is %s" % (nm, fmt(r)))
 
 
 def conservation(ctx, mg):
